@@ -5,14 +5,14 @@
 
   "For the names the listing formats carry faithfully": the refinement is conditional on
     * `TreeOk cfg s.root` — every name in the server's tree is one the variant's listing format (and the
-      transport) carries: C20's `WFName` / `NoEol` for MLSD plus no `str.splitlines()` break character
-      (the MLST reply), C20's `WFLinuxName` for LIST plus no carriage return; every file size can be stated
-      as a number `int()` accepts;
+      transport) carries: no CR / LF (C20's `NoEol`; `WFName` follows from `Node.wf`), on the LIST variant also
+      C20's `WFLinuxName` (no leading white space); every file size can be stated as a number `int()` accepts;
     * `ArgOk cfg p` for every path argument — no CR / LF (they cannot travel in a command line; FTPFS
       declares them invalid, the reference does not) and components of the same kind.
-  What happens otherwise is stated by the `…_counterexample` theorems at the end: the format limits
-  C20 already records, the protocol limit, and one genuine defect of the LIBRARY the model exposed
-  (`ftp_mlst_linebreak_counterexample`: `getinfo` cuts the MLST reply with `str.splitlines()`).
+  What happens otherwise is stated by the `…_counterexample` theorems at the end: the format limit
+  C20 already records and the protocol limit.  The one genuine defect of the LIBRARY this model exposed
+  (`getinfo` cut the MLST reply with `str.splitlines()`) is repaired in /repo (79535c4); the model follows,
+  the clause it had forced on `NameOk` is gone, and `ftp_mlst_linebreak_repaired` is the regression theorem.
 -/
 import FsModel.Ref
 import FsModel.RefAdm
@@ -322,12 +322,13 @@ theorem ftp_listing_roundtrip_list (cfg : Profile) (hcf : Conforming cfg) (es : 
       infos.map Ftp.listEnt = es.map fun kv => (kv.1, kv.2.isDir, FtpServer.sizeOf cfg kv.2) :=
   list_listing cfg hcf es h
 
-/-- MLST: the control reply, cut with `str.splitlines()[1:-1]` as the library does, yields the one entry
-    named like the last component of the path — provided no component breaks a line -/
+/-- MLST: the control reply, cut with `response.split("\n")[1:-1]` as the library does since 79535c4, yields the
+    one entry named like the last component of the path — for EVERY path whose components contain no CR / LF,
+    whatever else they contain (VT, FF, FS, GS, RS, NEL, LS, PS included: `ftp_mlst_linebreak_repaired`) -/
 theorem ftp_mlst_roundtrip (cfg : Profile) (hcf : Conforming cfg) (p : List Name) (n : Node) (hne : p ≠ [])
-    (hcl : ∀ c ∈ p, cleanName c = true) (hp : ∀ c ∈ p, NoBreak c)
+    (hcl : ∀ c ∈ p, cleanName c = true) (hp : ∀ c ∈ p, NoCrLf c)
     (hsz : (decimal (FtpServer.sizeOf cfg n)).length ≤ maxStrDigits) :
-    ∃ i, parseMlsx (((splitlines (mlstText cfg p n)).drop 1).dropLast) = .ok [i] ∧
+    ∃ i, parseMlsx (((splitOn '\n' (mlstText cfg p n)).drop 1).dropLast) = .ok [i] ∧
       (i.name, i.isDir, i.size) = (p.getLast?.getD [], n.isDir, FtpServer.sizeOf cfg n) :=
   mlst_reply cfg hcf p n hne hcl hp hsz
 
@@ -383,8 +384,8 @@ theorem pyftpdlib_conforming (mlsd : Bool) (cy : Nat) : Conforming (pyftpdlib ml
     intro name n kv hkv
     simp only [pyftpdlib, List.mem_cons, List.mem_nil_iff, or_false] at hkv
     rcases hkv with rfl | rfl
-    · exact ⟨by unfold NoBreak; decide, by unfold NoBreak; decide⟩
-    · cases n.isDir <;> exact ⟨by unfold NoBreak; decide, by unfold NoBreak; decide⟩
+    · exact ⟨by decide, by decide⟩
+    · cases n.isDir <;> exact ⟨by decide, by decide⟩
   dir_size := by simp only [pyftpdlib]; decide
   list_perms := by intro n; simp only [pyftpdlib]; cases n.isDir <;> decide
   list_links := by intro n; simp only [pyftpdlib]; decide
@@ -401,7 +402,7 @@ theorem argOk_a (cfg : Profile) : ArgOk cfg "a".toList := by
   intro c hc
   simp only [List.mem_singleton] at hc
   subst hc
-  exact ⟨fun _ => by unfold NoBreak; decide, fun _ => ⟨⟨by decide, by decide⟩, fun c r h => by cases h; decide⟩⟩
+  exact ⟨⟨by decide, by decide⟩, fun _ => fun c r h => by cases h; decide⟩
 
 /-- … so `ftp_refines_ref` applies to it: e.g. on the empty server, for `makedir("a")`, both variants -/
 example (mlsd : Bool) : ∃ cfg s op, Conforming cfg ∧ cfg.mlsd = mlsd ∧ s.closed = false ∧ s.root.isDir = true ∧
@@ -415,8 +416,8 @@ example (mlsd : Bool) : ∃ cfg s op, Conforming cfg ∧ cfg.mlsd = mlsd ∧ s.c
     exact argOk_a _
   · rintro (h | h) <;> exact h
 
-/-! ### outside the hypotheses: what the limits of the protocol and of the listing formats look like,
-and the one deviation that is the LIBRARY's -/
+/-! ### outside the hypotheses: what the limits of the protocol and of the listing formats look like
+(and the regression theorem for the one deviation that was the LIBRARY's) -/
 
 /-- bytes of the file at a path, if there is one -/
 def fileAt (t : Node) (q : List Name) : Option Bytes :=
@@ -452,69 +453,24 @@ theorem ftp_list_leading_blank_counterexample :
   decide
 
 set_option maxRecDepth 100000 in
-/-- A DEVIATION THAT IS THE LIBRARY'S (finding `C01-ftpfs-mlst-reply-splitlines`).  `FTPFS.getinfo` cuts the
-    MLST reply with `response.splitlines()[1:-1]`; `str.splitlines` also breaks at VT, FF, FS, GS, RS, NEL, LS and
-    PS, all of which are legal in a (UTF-8) file name.  For the directory `a<FF>b` the first fragment that parses
-    is the tail `b":` of the reply's FIRST line: `getinfo` reports a FILE named `b":` of size 0, `isdir` is false —
-    while `listdir` (MLSD, on the data connection, cut at CR LF only) shows the name correctly.  The LIST
-    variant is not affected. -/
-theorem ftp_mlst_linebreak_counterexample :
-    let t : Node := .dir [("a\x0cb".toList, .dir [])]
-    (Ftp.step (exec (pyftpdlib true 2026)) 2026 ⟨t, false⟩ (.isdir "a\x0cb".toList)).2 = .ok (.bool false) ∧
+/-- REPAIRED (was `ftp_mlst_linebreak_counterexample`, finding `C01-ftpfs-mlst-reply-splitlines`, /repo 79535c4).
+    `FTPFS.getinfo` used to cut the MLST reply with `str.splitlines()`, which also breaks at VT, FF, FS, GS, RS, NEL,
+    LS and PS: for the directory `a<FF>b` it reported a FILE named `b":` of size 0, `isdir` was false.  Cut at `\n`
+    only, the former witnesses give the reference's answers, on both variants (and `ftp_mlst_roundtrip` /
+    `ftp_refines_ref` hold for every such name: nothing about line-break characters is assumed any more) -/
+theorem ftp_mlst_linebreak_repaired :
+    let t : Node := .dir [("a\x0cb".toList, .dir []), ("a\u2028b".toList, .file [1, 2, 3])]
+    (Ftp.step (exec (pyftpdlib true 2026)) 2026 ⟨t, false⟩ (.isdir "a\x0cb".toList)).2 = .ok (.bool true) ∧
     (Ftp.step (exec (pyftpdlib true 2026)) 2026 ⟨t, false⟩ (.getinfo "a\x0cb".toList)).2 =
-      .ok (.info "b\":".toList false 0) ∧
-    (Ftp.step (exec (pyftpdlib true 2026)) 2026 ⟨t, false⟩ (.listdir "/".toList)).2 = .ok (.names ["a\x0cb".toList]) ∧
+      .ok (.info "a\x0cb".toList true 0) ∧
+    (Ftp.step (exec (pyftpdlib true 2026)) 2026 ⟨t, false⟩ (.getsize "a\u2028b".toList)).2 = .ok (.nat 3) ∧
+    (Ftp.step (exec (pyftpdlib true 2026)) 2026 ⟨t, false⟩ (.listdir "/".toList)).2 =
+      .ok (.names ["a\x0cb".toList, "a\u2028b".toList]) ∧
     (Ref.step ⟨t, false⟩ (.isdir "a\x0cb".toList)).2 = .ok (.bool true) ∧
     (Ref.step ⟨t, false⟩ (.getinfo "a\x0cb".toList)).2 = .ok (.info "a\x0cb".toList true 0) ∧
+    (Ref.step ⟨t, false⟩ (.getsize "a\u2028b".toList)).2 = .ok (.nat 3) ∧
     (Ftp.step (exec (pyftpdlib false 2026)) 2026 ⟨t, false⟩ (.isdir "a\x0cb".toList)).2 = .ok (.bool true) := by
   decide
-
-/-- … and the proposed patch is sound: cutting the reply at `\n` only (`response.split("\n")[1:-1]` — `ftplib`
-    joins the lines of a multi-line reply with `\n`) yields exactly the entry line for EVERY path whose
-    components contain no line feed, so the MLSD variant would need nothing beyond C20's `NoEol` -/
-theorem ftp_mlst_patch_sound (cfg : Profile) (hcf : Conforming cfg) (p : List Name) (n : Node)
-    (hp : ∀ c ∈ p, '\n' ∉ c) :
-    ((splitOn '\n' (mlstText cfg p n)).drop 1).dropLast =
-      [' ' :: renderMlsd (entryFacts cfg (p.getLast?.getD []) n) (wirePath p)] := by
-  have hwire : '\n' ∉ wirePath p := by
-    cases p with
-    | nil => decide
-    | cons c r =>
-      simp only [wirePath, List.mem_flatMap, not_exists, not_and]
-      intro x hx hm
-      rcases List.mem_cons.1 hm with h | h
-      · cases h
-      · exact hp x hx h
-  have hfacts : ∀ (facts : List (Str × Str)), (∀ kv ∈ facts, NoBreak kv.1 ∧ NoBreak kv.2) → ∀ text, '\n' ∉ text →
-      '\n' ∉ renderMlsd facts text := by
-    intro facts hf text ht hm
-    have hnb := noBreak_renderMlsd facts text hf
-    -- a line feed is a line break: argue on the two halves directly
-    unfold renderMlsd at hm
-    rcases List.mem_append.1 hm with h | h
-    · obtain ⟨kv, hkv, hx⟩ := List.mem_flatMap.1 h
-      have h1 := (hf kv hkv).1
-      have h2 := (hf kv hkv).2
-      rcases List.mem_append.1 hx with h' | h'
-      · rcases List.mem_append.1 h' with h'' | h''
-        · exact absurd (h1 _ h'') (by decide)
-        · rcases List.mem_cons.1 h'' with h3 | h3
-          · cases h3
-          · exact absurd (h2 _ h3) (by decide)
-      · simp at h'
-    · rcases List.mem_cons.1 h with h' | h'
-      · cases h'
-      · exact ht h'
-  have h1 : '\n' ∉ "250-Listing \"".toList ++ wirePath p ++ "\":".toList := by
-    simp only [List.mem_append, not_or]
-    exact ⟨⟨by decide, hwire⟩, by decide⟩
-  have h2 : '\n' ∉ ' ' :: renderMlsd (entryFacts cfg (p.getLast?.getD []) n) (wirePath p) := by
-    simp only [List.mem_cons, not_or]
-    exact ⟨by decide, hfacts _ (entryFacts_noBreak cfg hcf _ n) _ hwire⟩
-  unfold mlstText
-  rw [List.append_assoc, List.cons_append, PathLemmas.splitOn_append_sep _ _ _ h1,
-    PathLemmas.splitOn_append_sep _ _ _ h2, PathLemmas.splitOn_of_not_mem _ _ (by decide)]
-  simp
 
 /-- the base-class `movedir` into a proper ancestor of the source deviates on FTPFS as on MemoryFS and OSFS
     (the same witness as `MemRefines.mem_movedir_ancestor_counterexample`) -/
